@@ -1,7 +1,8 @@
 (* Props/C11.v -- property C11: compile-time evaluation agrees with run-time evaluation.
    Only statements; every proof is [exact lemma]. *)
 From TV Require Import Base.I32 Base.F32 Model.Ops Model.Expr Spec.MachineOps Gen.OpTable
-  Proofs.OpsSpec Proofs.SimplifySound.
+  Proofs.OpsSpec Proofs.SimplifySound Proofs.ConstDfs Proofs.ConstVm.
+From Coq Require Import Permutation.
 Open Scope Z_scope.
 
 (* (1) every integer operator's compile-time result is the documented machine semantics, for
@@ -47,7 +48,62 @@ Theorem C11_named_equals_inline : forall libm cs id e v,
   simplify gen_optable libm cs (EVar None id) = simplify gen_optable libm cs e.
 Proof. exact named_equals_inline_gen. Qed.
 
+(* (5) consts: the compile-time DFS evaluator of const definitions (Evaluator::_const_eval with its cache and
+       cycle check) agrees with the run-time evaluator.  For every set of const definitions with distinct ids,
+       whatever their declaration order, once do_deferred_evaluations has produced the cache:
+       every expression the compile-time evaluator gives a value to evaluates, at run time over that cache, to
+       the same value (any registers, locals, difficulty), and every cached const is the run-time value of its
+       defining expression. *)
+Theorem C11_const_cache_agrees_with_vm : forall libm fuel (dl : list (nat * expr)) cache,
+  NoDup (map fst dl) ->
+  eval_deferred gen_optable libm (assoc dl) fuel (map fst dl) [] = Ok cache ->
+  (forall f st e v regs locals diff, ceval gen_optable libm (assoc dl) f st e = Ok v ->
+     eval gen_optable libm regs locals (assoc cache) diff e = Ok v) /\
+  (forall id d v regs locals diff, In (id, d) dl -> assoc cache id = Some v ->
+     eval gen_optable libm regs locals (assoc cache) diff (EVar None id) = Ok v /\
+     eval gen_optable libm regs locals (assoc cache) diff d = Ok v).
+Proof. exact const_cache_agrees_with_vm. Qed.
+
+(* (6) the value of a const does not depend on where the DFS reached it from (use site, sigil of the
+       first use, evaluation stack), nor on the fuel once it is enough *)
+Theorem C11_const_value_independent_of_reach : forall T libm defs f st e v,
+  ceval T libm defs f st e = Ok v -> forall st', incl st' st -> ceval T libm defs f st' e = Ok v.
+Proof. exact ceval_stack_irrelevant. Qed.
+
+Theorem C11_const_eval_fuel_monotone : forall T libm defs f st e,
+  ceval T libm defs f st e <> OutOfFuel -> forall f', (f <= f')%nat -> ceval T libm defs f' st e = ceval T libm defs f st e.
+Proof. exact ceval_fuel_mono. Qed.
+
+(* (7) the cache does not depend on the order in which the definitions are evaluated *)
+Theorem C11_const_cache_order_independent : forall T libm defs fuel ids ids' out,
+  NoDup ids -> Permutation ids ids' ->
+  eval_deferred T libm defs fuel ids [] = Ok out ->
+  exists out', eval_deferred T libm defs fuel ids' [] = Ok out' /\ forall k, assoc out' k = assoc out k.
+Proof. exact eval_deferred_order_independent. Qed.
+
+(* (8) a const defined as itself is an error, never a value *)
+Theorem C11_self_reference_is_error : forall T libm defs fuel id sg,
+  defs id = Some (EVar sg id) -> forall v, ceval T libm defs fuel [] (EVar None id) <> Ok v.
+Proof. exact self_reference_is_error. Qed.
+
+(* non-vacuity of (5): `const float B = %A + 0.5; const int A = 3;` (B declared first, reaching A through a
+   sigil): the cache holds A = 3 (an int) and B = 3.5 *)
+Example C11_const_example :
+  let dl := [(1%nat, EBin (EVar (Some SgFloat) 0%nat) Add (ELitF 1056964608)); (0%nat, ELitI 3)] in
+  NoDup (map fst dl) /\
+  exists cache, eval_deferred gen_optable (fun _ _ => 0) (assoc dl) 10 (map fst dl) [] = Ok cache /\
+                assoc cache 0%nat = Some (VInt 3) /\ assoc cache 1%nat = Some (VFloat 1080033280).
+Proof.
+  cbv zeta. split; [repeat constructor; cbn; intuition congruence|].
+  eexists. split; [vm_compute; reflexivity|]. split; reflexivity.
+Qed.
+
 Print Assumptions C11_int_table_matches_spec.
+Print Assumptions C11_const_cache_agrees_with_vm.
+Print Assumptions C11_const_value_independent_of_reach.
+Print Assumptions C11_const_eval_fuel_monotone.
+Print Assumptions C11_const_cache_order_independent.
+Print Assumptions C11_self_reference_is_error.
 Print Assumptions C11_int_unop_matches_spec.
 Print Assumptions C11_float_table_is_ieee.
 Print Assumptions C11_float_unop_table.
